@@ -53,8 +53,13 @@ def workloads(rng, tier):
             wl.append(('delh-tail-' + tag, hbase + ['del 3', 'pub ' + m(), 'close']))
             wl.append(('delh-all-' + tag, hbase + ['del 0,1,2,3', 'pub ' + m(), 'close']))
             # reopen with eager migration, and Migrate
-            wl.append(('migrate-' + tag, [op_open(90, v=1), 'pub ' + m() + ' ' + m(), 'pub ' + m() + ' ' + m(), 'close',
+            # (three publishes: the first segment is sealed, its migration is not repaired by the recovery of the head)
+            wl.append(('migrate-' + tag, [op_open(90, v=1), 'pub ' + m() + ' ' + m(), 'pub ' + m() + ' ' + m(), 'pub ' + m(), 'close',
                                           op_open(90, v=2, eager=1), 'pub ' + m(), 'close']))
+            # klevdb.Migrate on the closed directory, in either direction
+            mv = rng.choice([1, 2])
+            wl.append(('migratedir-' + tag, [op_open(90, v=3 - mv), 'pub ' + m() + ' ' + m(), 'pub ' + m() + ' ' + m(), 'pub ' + m(), 'close',
+                                             'migrate %d' % mv, op_open(90, v=mv), 'pub ' + m(), 'close']))
             # lazy reindex after removing index files
             wl.append(('reindex-' + tag, base + ['close', 'rmindex all', op_open(90), 'probe scan', 'close']))
             # Recover itself (depth 2): a torn tail, then Open(Recover) whose own steps are crash points
